@@ -53,6 +53,9 @@ TRUSTED_BASE = [
     "C10_smiles_roundtrip_under_rdkit_contract, monitored by the oracle on every molecule case",
 ]
 ASSUMPTIONS = [
+    "KNOWN FINDING (code kept): smiles_to_graph(use_index_as_atom_map=True, drop_non_aam=False) on a partially mapped molecule merges a "
+    "mapped atom and an unmapped atom whose index + 1 equals that map number (C10_partial_mapping_id_collision_refuted); default flags, "
+    "fully mapped / unmapped molecules and rsmi_to_graph are unaffected",
     "the model's attribute records do not distinguish a missing dictionary key from a key holding None (get_rc writes "
     "standard_order=None for an H-H bond that had no standard_order): core + explicit_hydrogen exports of hand-made ITS graphs "
     "with such a bond are outside the model's domain and are seen by the oracle only (counted under outside_model_domain)",
@@ -82,7 +85,7 @@ TESTED_NOT_PROVED = [
     "graph_to_rsmi / its_to_rsmi / gml_to_smart: modelled up to the two RWMol handed to RDKit (observed on the real call by a spy on "
     "graph_to_smi / GraphToMol.graph_to_mol); what RDKit writes from them is not modelled",
 ]
-LEVEL_TEXT = ("Machine-checked proof (Coq, 44 theorems, closed under the global context) over an executable model of the GML writer/reader at "
+LEVEL_TEXT = ("Machine-checked proof (Coq, 47 theorems, closed under the global context) over an executable model of the GML writer/reader at "
               "record level, of its_to_gml / gml_to_its / smart_to_gml / get_rc / its_decompose / ITSGraph at graph level, of h_to_explicit / "
               "h_to_implicit, and of the attribute copying of MolToGraph / GraphToMol: label round trip for every element symbol and every "
               "charge; ITS -> GML -> ITS restores atoms, both-side charges and (before, after) orders for every reaction-centre-shaped ITS, "
@@ -1374,6 +1377,20 @@ def _oracle_mol(case):
     if _total_h(G) != nh_ref or G.number_of_nodes() != ref.GetNumAtoms() or G.number_of_edges() != ref.GetNumBonds():
         fails.append(_fail("smiles-graph", "%r: graph has %d atoms / %d bonds / %d H, RDKit %d / %d / %d"
                            % (s, G.number_of_nodes(), G.number_of_edges(), _total_h(G), ref.GetNumAtoms(), ref.GetNumBonds(), nh_ref)))
+    # the same conversion with use_index_as_atom_map=True (atom maps as node ids, index + 1 for unmapped atoms): still one node
+    # per atom, one edge per bond, and the same molecule back.  Molecules whose map numbers repeat are not validly mapped: skipped.
+    maps = [a.GetAtomMapNum() for a in ref.GetAtoms()]
+    used = [x for x in maps if x]
+    if len(set(used)) == len(used):
+        G2 = smiles_to_graph(s, use_index_as_atom_map=True)
+        out2 = graph_to_smi(G2) if G2 is not None else None
+        back2 = Chem.MolFromSmiles(out2, prm) if out2 is not None else None
+        if G2 is None or G2.number_of_nodes() != ref.GetNumAtoms() or G2.number_of_edges() != ref.GetNumBonds() or \
+                back2 is None or _canon_nostereo(back2) != _canon_nostereo(ref):
+            collide = any(m == 0 and (i + 1) in used for i, m in enumerate(maps))
+            fails.append(_fail("smiles-roundtrip-index-ids", "%r with use_index_as_atom_map=True: graph has %s atoms / %s bonds (RDKit %d / %d) and reads %r"
+                               % (s, G2 and G2.number_of_nodes(), G2 and G2.number_of_edges(), ref.GetNumAtoms(), ref.GetNumBonds(), out2),
+                               key="smiles_to_graph:use_index_as_atom_map:partial-mapping-id-collision" if collide else None))
     fails += _h_clauses(G, repr(s))
     want = _canon_nostereo(ref, addhs=True)
     ids = sorted(G.nodes)
@@ -1863,6 +1880,10 @@ HIST_POOL = ["[NH4+]", "C[N+](C)(C)CC([O-])=O", "c1cc[nH]c1", "[O-]c1ccccc1", "[
              "Cn1cc[n+](C)c1", "C#N", "[C-]#[O+]"]
 
 
+# partially mapped molecules; the first four collide under use_index_as_atom_map=True (known finding), the others do not
+PARTIAL_MAP_POOL = ["[CH3:2]C", "C[CH3:1]", "CC[OH:2]", "[CH3:3]CC", "[CH3:10][CH:20]=C", "C[CH2:5]O", "[CH3:1]CC", "CC[CH3:3]",
+                    "c1cc[cH:9]cc1", "[NH4+:7].[Cl-]", "O=[C:1]([O-])C"]
+
 NOSANITIZE_RXNS = [
     "[CH:1]1=[CH:2][CH:3]=[CH:4][CH:5]=[C:6]1[Br:7].[OH-:8]>>[CH:1]1=[CH:2][CH:3]=[CH:4][CH:5]=[C:6]1[OH:8].[Br-:7]",
     "[CH3:1][N:2](=[O:3])=[O:4].[CH3:5][Mg:6][Br:7]>>[CH3:1][N:2](=[O:3])([CH3:5])[O:4][Mg:6][Br:7]",
@@ -2076,6 +2097,23 @@ def gen_cases(tier, rng):
             cases.append(dict(kind="mol", smiles=c, src="corpus-" + src + "-unmapped"))
     for s in vend_q:
         cases.append(dict(kind="mol", smiles=s, src="vendored"))
+    # ---- partially mapped molecules (some atoms carry a map number, others do not): with use_index_as_atom_map=True the
+    #      unmapped atoms are numbered index + 1, next to the map numbers of the others
+    for j, sm in enumerate(PARTIAL_MAP_POOL):
+        cases.append(dict(kind="mol", smiles=sm, src="partial-map", name="mol-partial-map/%d" % j))
+    from rdkit import Chem as _Chem
+    npm = 0
+    for src, f, c in cm_q:
+        if npm >= (12 if quick else 200):
+            break
+        mm = _Chem.MolFromSmiles(f)
+        if mm is None or mm.GetNumAtoms() < 3 or not all(a.GetAtomMapNum() for a in mm.GetAtoms()):
+            continue
+        for a in mm.GetAtoms():
+            if rng.random() < 0.4:
+                a.SetAtomMapNum(0)
+        cases.append(dict(kind="mol", smiles=_Chem.MolToSmiles(mm), src="partial-map-corpus"))
+        npm += 1
     # ---- degenerate values and sizes (empty molecule, single atoms, charges up to +-4, ring closure %10, map numbers 0 / >= 10)
     for j, s in enumerate(HIST_POOL):
         cases.append(dict(kind="mol", smiles=s, src="degenerate", name="mol-degenerate/%d" % j))
